@@ -6,6 +6,8 @@ import (
 	"encoding/json"
 	"flag"
 	"fmt"
+	"go/types"
+	"golang.org/x/tools/go/ssa"
 	"os"
 	"path/filepath"
 	"regexp"
@@ -18,14 +20,16 @@ import (
 const verifDir = "/verif"
 
 type propConfig struct {
-	Property    string   `json:"property"`
-	Title       string   `json:"title"`
-	Lemma       string   `json:"lemma"`
-	Assumptions []string `json:"assumptions"`
-	NotCovered  []string `json:"not_covered"`
-	TrustedBase []string `json:"trusted_base"`
-	SweepCreate bool     `json:"sweep_create"` // also check every creation site of createinv types in functions without contract
-	NotClaimed  []struct {
+	StableScan   bool     `json:"stable_scan"` // include the stable-field store-scan obligations
+	Property     string   `json:"property"`
+	Title        string   `json:"title"`
+	Lemma        string   `json:"lemma"`
+	Assumptions  []string `json:"assumptions"`
+	NotCovered   []string `json:"not_covered"`
+	TrustedBase  []string `json:"trusted_base"`
+	SweepCallers bool     `json:"sweep_callers"` // also check the preconditions of sweep-callers contracts at every call site in the package
+	SweepCreate  bool     `json:"sweep_create"`  // also check every creation site of createinv types in functions without contract
+	NotClaimed   []struct {
 		Obligation string `json:"obligation"`
 		Reason     string `json:"reason"`
 	} `json:"not_claimed"`
@@ -158,8 +162,8 @@ func cmdCheck(args []string) {
 		}
 		todo = append(todo, c)
 	}
-	if cfg.SweepCreate {
-		todo = append(todo, g.sweepContracts("")...)
+	if cfg.SweepCreate || cfg.SweepCallers {
+		todo = append(todo, g.sweepContracts("", *prop, cfg.SweepCreate)...)
 	}
 	frs = g.verifyAll(todo)
 	notClaimed := map[string]bool{}
@@ -180,7 +184,7 @@ func cmdCheck(args []string) {
 			pres[fr.Ex] = [2]string{fr.Pre, fr.PreExact}
 		}
 		for _, o := range fr.Obligs {
-			if fr.Con.Flags["sweep"] && o.Kind != "create" && !(o.Kind == "pre" && sweepPre(g, o, *prop)) {
+			if fr.Con.Flags["sweep"] && !(o.Kind == "create" && cfg.SweepCreate) && !(o.Kind == "pre" && sweepPre(g, o, *prop)) {
 				continue
 			}
 			if notClaimed[baseName(o.Name)] {
@@ -190,6 +194,13 @@ func cmdCheck(args []string) {
 		}
 	}
 	solveAll(obs, pres, timeout, 16, *tier == "thorough", dir)
+	if cfg.StableScan {
+		for _, o := range g.stableScan() {
+			if !notClaimed[baseName(o.Name)] {
+				obs = append(obs, o)
+			}
+		}
+	}
 	coverN := 0
 	if *tier == "thorough" || *cover {
 		vac, n := coverCheck(obs, pres, 5, dir)
@@ -260,7 +271,10 @@ func cmdCheck(args []string) {
 		// re-time everything that failed or was slow, one obligation at a time (clean timing)
 		var again []*Oblig
 		for _, o := range obs {
-			if o.Res == nil || o.Res.Status != "unsat" || o.Res.TimeS > 4 {
+			if o.ex == nil {
+				continue
+			}
+			if o.Res == nil || o.Res.Status == "timeout" || o.Res.Status == "unknown" || o.Res.Status == "unsat" && o.Res.TimeS > 4 {
 				again = append(again, o)
 			}
 		}
@@ -460,4 +474,79 @@ func sweepPre(g *Gen, o *Oblig, prop string) bool {
 		}
 	}
 	return false
+}
+
+// stableScan: fields declared `stable` may only be stored to through an object allocated in the
+// storing function (constructor pattern). Each declared field yields one syntactic obligation over
+// every Store instruction of the verified packages.
+func (g *Gen) stableScan() []*Oblig {
+	type key struct{ tn, fn string }
+	var out []*Oblig
+	for _, ent := range g.cs.Stable {
+		i := strings.Index(ent, "|")
+		dir, tf := ent[:i], ent[i+1:]
+		sp := g.pkgs[dir]
+		j := strings.LastIndex(tf, ".")
+		if sp == nil || j < 0 {
+			continue
+		}
+		tname, fname := tf[:j], tf[j+1:]
+		obj := sp.Pkg.Scope().Lookup(tname)
+		if obj == nil {
+			continue
+		}
+		var bad []string
+		nStores := 0
+		nCtor := 0
+		for _, fn := range g.funcs {
+			if fn.Pkg != sp {
+				continue
+			}
+			for _, b := range fn.Blocks {
+				for _, in := range b.Instrs {
+					st, ok := in.(*ssa.Store)
+					if !ok {
+						continue
+					}
+					fa, ok := st.Addr.(*ssa.FieldAddr)
+					if !ok {
+						continue
+					}
+					t := deref(fa.X.Type())
+					if !types.Identical(t, obj.Type()) {
+						continue
+					}
+					s, _ := isStruct(t)
+					if s.Field(fa.Field).Name() != fname {
+						continue
+					}
+					nStores++
+					if _, isAlloc := fa.X.(*ssa.Alloc); isAlloc {
+						continue
+					}
+					isCtor := false
+					for _, c := range g.cs.Constructors {
+						if c[0] == tname && c[1] == fn.RelString(sp.Pkg) {
+							isCtor = true
+						}
+					}
+					if isCtor {
+						nCtor++
+						continue
+					}
+					pos := g.prog.Fset.Position(st.Pos())
+					bad = append(bad, fmt.Sprintf("%s (%s:%d)", fn.RelString(sp.Pkg), filepath.Base(pos.Filename), pos.Line))
+				}
+			}
+		}
+		sort.Strings(bad)
+		o := &Oblig{Name: fmt.Sprintf("%s.%s#stable[%s]", sp.Pkg.Name(), tname, fname), Func: tname, Kind: "stable", Label: fname}
+		if len(bad) == 0 {
+			o.Res = &SolveResult{Status: "unsat", Solver: "store-scan", Output: fmt.Sprintf("%d stores: %d in declared constructors, the rest to objects allocated in the storing function", nStores, nCtor)}
+		} else {
+			o.Res = &SolveResult{Status: "sat", Solver: "store-scan", Output: "stored to outside a constructor: " + strings.Join(bad, "; ")}
+		}
+		out = append(out, o)
+	}
+	return out
 }
